@@ -110,6 +110,15 @@ def generate(rng, tier, n):
         cases.append(build(cid, t, st, rng.choice(["external", "external", "sampled", "full"]), rng.choice([1, 5, 20]), 0.0,
                            rng.choice([1, 1, 2, 3]), rng.choice(["dcfr", None, "vanilla"]), None, 0, {"stress": "chance-infoset-twice-on-a-path"}))
         cid += 1
+    # the documented "no limit" budget (u64::MAX; the CLI's -t 0) and its neighbour, ended by the threshold: a positive
+    # budget must run at least one iteration and return a finite bound, with every method and thread count
+    for _ in range(max(6, n // 40)):
+        t, st = gen_tree(rng, max_nodes=rng.choice([6, 15]), max_depth=3)
+        method = rng.choice(["full", "sampled", "external"])
+        cases.append(build(cid, t, st, method, rng.choice([2 ** 64 - 1, 2 ** 64 - 1, 2 ** 64 - 2]), rng.choice([INF, 1e9]),
+                           rng.choice([1, 1, 2, 0]), rng.choice(["vanilla", None, "cfr_plus"]),
+                           draws_for(rng, t, st) if rng.random() < 0.5 else None, 0, {"stress": "unlimited-budget"}))
+        cid += 1
     while len(cases) < n:
         t, st = gen_tree(rng, max_nodes=rng.choice([6, 15, 40, 70]), max_depth=rng.choice([3, 5, 6]),
                          payoff_scale=rng.choice([1.0, 10.0, 1e6]))
